@@ -880,6 +880,8 @@ func gen(g *tr.G) {
 	genTwoSided(g)
 	// ---- round 6 (round6.go): constructed large texts, above 2^20 and 2^24 pairs of lines
 	genLarge(g)
+	// ---- round 7 (round7.go): min(len) = L for every L, the extra lines of the longer text at spread positions
+	genShortSide(g)
 }
 
 // replayArg returns the value of the -replay flag, if given.
@@ -933,8 +935,8 @@ func main() {
 			}
 			w.Case(in, exec(in), true, "replayed")
 		}
-		w.Close(o, rule, nil)
+		w.Close(o, rule7+rule, nil)
 		return
 	}
-	tr.Main(rule, exec, gen)
+	tr.Main(rule7+rule, exec, gen)
 }
